@@ -1,4 +1,5 @@
 import OomdProofs.EngineC06
+import OomdProofs.EngineRun
 import OomdProps.C02
 
 /-!
@@ -108,6 +109,33 @@ theorem resumes_next_tick (cfg : RsCfg) (sc : Script) (st : RsState) (now now' c
   cases hq : cfg.actions.drop i with
   | nil => have := List.drop_eq_nil_iff.1 hq; omega
   | cons a as => simp only [takeThrough]; split <;> simp
+
+/-- the world after a history of ticks of the whole engine -/
+def runWorld (inv : Bool) : World → List TickIn → World
+  | w, [] => w
+  | w, ti :: rest => runWorld inv (tick inv w ti).1 rest
+
+theorem good_mono {st : RsState} {a b : Nat} (h : Good st a) (hab : a ≤ b) : Good st b :=
+  ⟨h.1, fun hs => Nat.le_trans (h.2 hs) hab⟩
+
+/-- **The invariant holds for every ruleset of every run of the whole engine**: whatever the other
+rulesets and the tick spacing are, the ruleset at position `j` is `Good` at the world's clock after
+any number of ticks. -/
+theorem engine_good_invariant (j : Nat) :
+    ∀ (ticks : List TickIn) (w : World) (cfg : RsCfg) (st : RsState),
+      w.rs[j]? = some (cfg, st) → Good st w.now → (∀ ti ∈ ticks, Protocol ti.sc) →
+      ∃ st', (runWorld true w ticks).rs[j]? = some (cfg, st') ∧ Good st' (runWorld true w ticks).now := by
+  intro ticks
+  induction ticks with
+  | nil => intro w cfg st h hg _; exact ⟨st, h, hg⟩
+  | cons ti rest ih =>
+    intro w cfg st h hg hp
+    obtain ⟨h1, h2, h3⟩ := tick_at true w ti j cfg st h
+    simp only [runWorld]
+    refine ih _ cfg _ h1 ?_ (fun t ht => hp t (by simp [ht]))
+    have := rsRun_good cfg ti.sc st (entryOf true ti.sc w.rs j (w.now + ti.gap) w.ctr).1
+      (entryOf true ti.sc w.rs j (w.now + ti.gap) w.ctr).2 (hp ti (by simp)) (good_mono hg h3)
+    exact good_mono this h2
 
 /-- While a chain is suspended the detectors keep running each tick (`C02.all_detectors_run` holds in
 every state) and other rulesets proceed (`C02.independence`). -/
